@@ -615,6 +615,64 @@ pub fn zst<const N: usize>(ctx: &mut Ctx) {
             }
         }
     }
+    // an exactly FULL buffer of () at this capacity (built in O(1) from an array of N units): the
+    // arithmetic at len == N == usize::MAX is reachable only this way
+    if ctx.mine_next() && ctx.begin_case(|| format!("zst N={} exactly full buffer of () built from [(); N]", N)) {
+        let r = catch_unwind(AssertUnwindSafe(|| -> Result<(), String> {
+            let chk = |c: bool, m: String| if c { Ok(()) } else { Err(m) };
+            let mut b: Box<CircularBuffer<N, ()>> = Box::new(CircularBuffer::from([(); N]));
+            chk(b.len() == N && b.is_full() && b.is_empty() == (N == 0), format!("from([(); N]): len {} is_full {}", b.len(), b.is_full()))?;
+            chk(b.push_back(()).is_some() && b.len() == N, format!("push_back on the full buffer: len {}", b.len()))?;
+            chk(b.push_front(()).is_some() && b.len() == N, format!("push_front on the full buffer: len {}", b.len()))?;
+            chk(b.try_push_back(()).is_err() && b.try_push_front(()).is_err() && b.len() == N, "try_push on the full buffer".to_string())?;
+            let (x, y) = b.as_slices();
+            chk(x.len().checked_add(y.len()) == Some(N), format!("as_slices {} + {}", x.len(), y.len()))?;
+            chk(b.iter().len() == N && b.iter_mut().len() == N && b.range(..).len() == N, "iter len".to_string())?;
+            if N > 0 {
+                chk(b.get(N - 1).is_some() && b.get(N).is_none() && b.nth_back(N - 1).is_some() && b.nth_back(N).is_none(), "get / nth_back at the ends".to_string())?;
+                chk(b.front().is_some() && b.back().is_some(), "front/back".to_string())?;
+                chk(b.range(N - 1..).len() == 1 && b.range(..=N - 1).len() == N && b.range_mut(N - 1..N).len() == 1, "range at the end".to_string())?;
+                b.swap(0, N - 1);
+                chk(b.pop_back().is_some() && b.len() == N - 1 && !b.is_full(), "pop_back".to_string())?;
+                chk(b.try_push_front(()).is_ok() && b.is_full(), "try_push_front after pop".to_string())?;
+                chk(b.pop_front().is_some() && b.push_back(()).is_none() && b.is_full(), "pop_front / push_back".to_string())?;
+                chk(b.remove(N - 1).is_some() && b.len() == N - 1, "remove(N-1)".to_string())?;
+                if b.len() >= 2 {
+                    let l = b.len();
+                    chk(b.swap_remove_back(0).is_some() && b.swap_remove_front(l - 2).is_some() && b.swap_remove_front(l - 2).is_none() && b.len() == l - 2, "swap_remove".to_string())?;
+                }
+                let l = b.len();
+                {
+                    let mut d = b.drain(l.saturating_sub(2)..);
+                    let dl = d.len();
+                    let _ = d.next_back();
+                    drop(d);
+                    chk(b.len() == l - dl, format!("drain of the last {} of {}: len {}", dl, l, b.len()))?;
+                }
+                b.truncate_front(b.len().saturating_sub(1));
+                let l2 = b.len();
+                chk(b.make_contiguous().len() == l2, "make_contiguous".to_string())?;
+                b.extend_from_slice(&[(), (), ()]);
+                chk(b.len() == (l2.saturating_add(3)).min(N), format!("extend_from_slice near full: len {}", b.len()))?;
+                b.truncate_back(N / 2);
+                chk(b.len() == N / 2, format!("truncate_back(N/2): len {}", b.len()))?;
+            }
+            b.clear();
+            chk(b.is_empty(), "clear".to_string())?;
+            Ok(())
+        }));
+        ctx.count("zst_ops", 24);
+        let op = ZOp::PushBack;
+        match r {
+            Err(_) => {
+                let p = take_last_panic();
+                viol(ctx, N, &op, "unexpected_panic", format!("an operation on the exactly full buffer panicked: {:?}", p));
+            }
+            Ok(Err(m)) => viol(ctx, N, &op, "wrong_result", format!("on the exactly full buffer: {}", m)),
+            Ok(Ok(())) => {}
+        }
+        ctx.distinct.insert(hash64(&format!("zst-full|{}", N)));
+    }
     // slices only a zero-sized type can have: lengths up to usize::MAX (the call stays O(N))
     if N <= 65537 && ctx.mine_next() && ctx.begin_case(|| format!("zst N={} extend_from_slice with slices of () up to usize::MAX long", N)) {
         static HUGE: [(); usize::MAX] = [(); usize::MAX];
